@@ -175,6 +175,9 @@ impl<'a> SimdOp for SimdTopK<'a> {
     fn eval<I: Isa>(self, isa: I) -> Self::Output {
         let SimdTopK { logits, indices, k } = self;
 
+        // There cannot be more than `logits.len()` results.
+        let k = k.min(logits.len());
+
         let ops = isa.f32();
         let mask_ops = isa.m32();
         let compare_gt = |a: f32, b: f32| a.total_cmp(&b).reverse();
@@ -196,7 +199,7 @@ impl<'a> SimdOp for SimdTopK<'a> {
         let mut kth_logit_vec = ops.splat(kth_logit);
 
         let mut update_topk = |kth_logit: &mut f32, index: u32, logit: f32| {
-            if logit > *kth_logit {
+            if logit.total_cmp(kth_logit).is_gt() {
                 *topk.last_mut().unwrap() = (index, logit);
                 topk.sort_by(|a, b| compare_gt(a.1, b.1));
                 *kth_logit = topk.last().unwrap().1;
@@ -211,7 +214,10 @@ impl<'a> SimdOp for SimdTopK<'a> {
         let mut indices_iter = indices.chunks_exact(ops.len());
         let mut logits_iter = logits.simd_iter(ops);
         for (index_chunk, logits_vec) in indices_iter.by_ref().zip(logits_iter.by_ref()) {
-            if mask_ops.any(ops.gt(logits_vec, kth_logit_vec)) {
+            // `!(x <= kth)` rather than `x > kth` so that chunks containing a
+            // NaN, or compared against a NaN threshold, are not skipped. Exact
+            // ordering is decided by `total_cmp` in `update_topk`.
+            if !mask_ops.all(ops.le(logits_vec, kth_logit_vec)) {
                 for (&index, logit) in index_chunk.iter().zip(logits_vec.to_array()) {
                     update_topk(&mut kth_logit, index, logit);
                 }
